@@ -302,6 +302,49 @@ func hostile(p plan, n int, port, tport int, rng *rand.Rand, hs *hostileStats) {
 			}
 		}
 		hs.hold(t.c)
+	case "scan":
+		// a port scan of the transfer port (preambles with reference numbers nobody was given) while logged-in
+		// clients of the same peer request downloads at full speed: lookups and registrations in the transfer
+		// table at the same moment
+		var wg sync.WaitGroup
+		for k := 0; k < 4; k++ {
+			wg.Add(2)
+			go func(k int) {
+				defer wg.Done()
+				t, err := loginTCP(src, port, "guest", "", "scan")
+				if err != nil {
+					atomic.AddInt64(&hs.failedDial, 1)
+					return
+				}
+				defer t.c.Close()
+				for i := 0; i < 150+50*p.Val; i++ {
+					t.id++
+					if _, err := t.c.Write(sim.NewTx(sim.TDownloadFile, t.id, sim.Fld(sim.FFileName, []byte("file.txt"))).Encode()); err != nil {
+						return
+					}
+					if i%25 == 24 {
+						drain(t.c, 5*time.Millisecond)
+					}
+				}
+				drain(t.c, 150*time.Millisecond)
+			}(k)
+			go func(k int) {
+				defer wg.Done()
+				r := rand.New(rand.NewSource(int64(n)*31 + int64(k)))
+				for i := 0; i < 150+50*p.Val; i++ {
+					y, err := dialFrom(src, tport)
+					if err != nil {
+						return
+					}
+					ref := make([]byte, 4)
+					r.Read(ref)
+					_, _ = y.Write(preamble(ref, 0))
+					drain(y, 2*time.Millisecond)
+					y.Close()
+				}
+			}(k)
+		}
+		wg.Wait()
 	case "ctl", "adm", "prelogin":
 		c, err := dialFrom(src, port)
 		if err != nil {
@@ -484,7 +527,7 @@ func runParent(args []string) error {
 	}
 	rng := rand.New(rand.NewSource(*seed))
 	muts := []string{"trunc", "total", "datasz", "count", "flen", "dropfield", "shortid", "garbage", "badhs", "size", "dup"}
-	sess := []string{"ctl", "ctl", "adm", "adm", "prelogin", "upload", "download", "fupload", "fdownload"}
+	sess := []string{"ctl", "ctl", "adm", "adm", "scan", "prelogin", "upload", "download", "fupload", "fdownload"}
 	plans = append([]plan{{Sess: "nonreader", Mut: "none", Val: 0}, {Sess: "nonreader", Mut: "none", Val: 1}}, plans...)
 	for i := 0; i < *fuzz; i++ {
 		plans = append(plans, plan{Sess: sess[rng.Intn(len(sess))], Frame: 1 + rng.Intn(24), Mut: muts[rng.Intn(len(muts))], Val: rng.Intn(9)})
@@ -559,6 +602,7 @@ func runParent(args []string) error {
 		}
 	}
 	probe("start")
+	stillBusy := false
 	hs := &hostileStats{}
 	n := 1000
 	for off := 0; off < len(plans) && !dead; off += *batch {
@@ -625,10 +669,28 @@ func runParent(args []string) error {
 		// down the server is working off its backlog (e.g. thousands of news posts, each rewriting the news file);
 		// a leak shows as no progress for 45 s (overall cap 20 min)
 		best, lastProgress := 1<<30, time.Now()
+		lastCPU, lastCPUAt, lastEv := childCPUTicks(cmd.Process.Pid), time.Now(), int64(-1)
 		for time.Since(t0) < 20*time.Minute && time.Since(lastProgress) < 45*time.Second {
+			// a server that is burning CPU or still recording registry / counter events is working off its backlog
+			// (machine load slows that down arbitrarily); a leak is a server that has gone quiet with users left over
+			// (busy = more than a tenth of a core over the last five seconds; this loop's own polling costs far less)
+			if dt := time.Since(lastCPUAt); dt >= 5*time.Second {
+				cpu := childCPUTicks(cmd.Process.Pid)
+				if float64(cpu-lastCPU)/dt.Seconds() >= 10 {
+					lastProgress = time.Now()
+				}
+				lastCPU, lastCPUAt = cpu, time.Now()
+			}
+			if fi, err := os.Stat(evPath); err == nil && fi.Size() != lastEv {
+				lastEv, lastProgress = fi.Size(), time.Now()
+			}
 			rep, err := s2.request(10*time.Second, sim.TGetUserNameList)
 			if err != nil {
-				break
+				if childDead() {
+					break
+				}
+				time.Sleep(500 * time.Millisecond)
+				continue
 			}
 			n := len(rep.GetAll(sim.FUsernameWithInfo))
 			if n < best {
@@ -651,6 +713,8 @@ func runParent(args []string) error {
 			}
 			time.Sleep(500 * time.Millisecond)
 		}
+		// the overall cap was reached while the server was still making progress: no verdict on "back to baseline"
+		stillBusy = time.Since(t0) >= 20*time.Minute && time.Since(lastProgress) < 45*time.Second
 		evs = append(evs, map[string]any{"op": "settled", "run": 1, "ms": time.Since(t0).Milliseconds()})
 		probe("quiescent")
 		rep, err := s2.request(10*time.Second, sim.TGetUserNameList)
@@ -662,7 +726,7 @@ func runParent(args []string) error {
 				}
 			}
 		}
-		evs = append(evs, map[string]any{"op": "userlist", "run": 1, "ok": err == nil, "names": names})
+		evs = append(evs, map[string]any{"op": "userlist", "run": 1, "ok": err == nil, "names": names, "busy": stillBusy})
 		if os.Getenv("VERIF_DEBUG_DUMP") != "" {
 			_ = cmd.Process.Signal(syscall.SIGQUIT)
 		} else {
@@ -702,6 +766,9 @@ func runParent(args []string) error {
 			var m map[string]any
 			if json.Unmarshal(line, &m) == nil {
 				m["run"] = 1
+				if m["op"] == "Final" {
+					m["busy"] = stillBusy
+				}
 				if m["op"] == "Add" {
 					a, _ := m["addr"].(string)
 					m["sentinel"] = strings.HasPrefix(a, "127.0.0.2:") || strings.HasPrefix(a, "127.0.0.3:")
@@ -735,4 +802,24 @@ func (l *limitWriter) Write(p []byte) (int, error) {
 		l.n += k
 	}
 	return len(p), nil
+}
+
+// childCPUTicks: user + system CPU time of the process so far, in clock ticks (0 if unreadable).
+func childCPUTicks(pid int) int64 {
+	b, err := os.ReadFile(fmt.Sprintf("/proc/%d/stat", pid))
+	if err != nil {
+		return 0
+	}
+	i := bytes.LastIndexByte(b, ')')
+	if i < 0 {
+		return 0
+	}
+	f := strings.Fields(string(b[i+1:]))
+	if len(f) < 13 {
+		return 0
+	}
+	var u, sy int64
+	fmt.Sscan(f[11], &u)
+	fmt.Sscan(f[12], &sy)
+	return u + sy
 }
